@@ -213,7 +213,7 @@ def universe(tier, seed, shard, nshards):
     idx = 0
     for i, s1 in enumerate(sers):
         for s2 in sers[i:]:
-            if thorough and max(len(s1), len(s2)) > 3 and len(s1) + len(s2) > 6:
+            if thorough and max(len(s1), len(s2)) > 3 and len(s1) + len(s2) > 7:
                 continue
             idx += 1
             if idx % nshards != shard:
@@ -227,7 +227,7 @@ def universe(tier, seed, shard, nshards):
             if idx % nshards != shard:
                 continue
             yield 'U4-ndim', 2, s1, s2, WINS
-    L = 6 if thorough else 5
+    L = 8 if thorough else 5
     cat = univ.CAT_PAIRS_THOROUGH if thorough else univ.CAT_PAIRS_QUICK
     for r in range(1, L + 1):
         for c in range(r, L + 1):
@@ -270,8 +270,8 @@ def run(ctx):
         rule='every unordered series pair x the complete settings grid (window x penalty{None,.5,2} x max_step{None,1.2} x inner x psi grid) in both '
              'argument orders and both engines; every comparable pair of grid points is checked; non-trivial = some related pair of calls returned different values',
         bounds={'alphabet': list(univ.alphabet(univ.BASE3, ctx.seed)),
-                'U1': 'all unordered pairs with lengths 1..%d, windows {None,1,2}' % (4 if ctx.thorough else 3),
-                'U3': 'catalogue pairs for all shapes r <= c <= %d with every window 1..c and None' % (6 if ctx.thorough else 5),
+                'U1': 'all unordered pairs with lengths 1..%d%s, windows {None,1,2}' % ((4, ' (sum <= 7 when a length is 4)') if ctx.thorough else (3, '')),
+                'U3': 'catalogue pairs for all shapes r <= c <= %d with every window 1..c and None' % (8 if ctx.thorough else 5),
                 'U4': 'ndim 2, lengths 1..2 over a 2-letter alphabet',
                 'U5': 'all ordered triples of series with lengths 1..2: square distance matrix symmetric, zero diagonal, entries equal the swapped-argument distance',
                 'psi_grid': 'None, 1, 2, {0,1}^4, single 2s (entries <= length, no empty-alignment combinations)'},
